@@ -150,6 +150,15 @@ func c14ReservedSpec(rng *rand.Rand, i int) *SessSpec {
 			o.CasAround = true
 		}
 	}
+	cid := uint32(0)
+	if i%5 == 3 {
+		// named collections are streamed: the reserved prefixes are reserved there as well (transaction records live in
+		// whatever collection the application chose for them)
+		sp.Colls = map[string]uint32{"c1": 8, "c2": 9}
+		sp.CollNames = []string{"c1", "c2"}
+		o.Cids = []uint32{8, 9}
+		cid = 8
+	}
 	ctr := 0
 	for vb := 0; vb < sp.NumVB; vb++ {
 		sp.Backlog[vb] = append(sp.Backlog[vb], genSnap(rng, o, &ctr))
@@ -162,7 +171,7 @@ func c14ReservedSpec(rng *rand.Rand, i int) *SessSpec {
 	for k := 0; k < 1+rng.Intn(3); k++ {
 		var sn []ItemSpec
 		for j := 0; j < 1+rng.Intn(3); j++ {
-			sn = append(sn, ItemSpec{K: []string{"m", "d", "e"}[rng.Intn(3)], Key: []byte(reservedSamples[rng.Intn(len(reservedSamples))] + fmt.Sprint(rng.Intn(9))), Val: []byte("{}")})
+			sn = append(sn, ItemSpec{K: []string{"m", "d", "e"}[rng.Intn(3)], Key: []byte(reservedSamples[rng.Intn(len(reservedSamples))] + fmt.Sprint(rng.Intn(9))), Val: []byte("{}"), Cid: cid})
 		}
 		sp.Steps = append(sp.Steps, Step{Op: "append", VB: rng.Intn(sp.NumVB), Items: sn})
 	}
